@@ -21,6 +21,12 @@ def main():
         # self-test of the machinery (informational, never changes the exit code): every change kept under
         # /verif/seeded/ for this property is applied to a scratch copy of /repo and the same check is run on it
         driver.seeded_self_test(a.property)
+    if a.tier == "thorough" and not a.only and not os.environ.get("PYVC_REPO"):
+        # the library contracts the proofs rest on, evaluated against the installed libraries
+        bad = driver.run_conformance(a.property)
+        if bad and code == 0:
+            print(f"CHECKER-FAULT property={a.property}: a trusted library contract disagrees with the installed library (tools/conform.py)")
+            code = 3
     sys.exit(code)
 
 
